@@ -167,3 +167,19 @@ Proof.
     destruct (compute rho b) as [qb| |] eqn:Eb; cbn [bind] in Ec; try discriminate.
     apply in_app_or in Hin as [Hin|Hin]; [eapply IHa | eapply IHb]; eauto.
 Qed.
+
+(* the shortcut in [shr] is the same function as Z.shiftr *)
+Lemma shr_spec : forall a n, 0 <= n -> shr a n = Z.shiftr a n.
+Proof.
+  intros a n Hn. unfold shr. destruct (Z.log2 (Z.abs a) + 1 <? n) eqn:E; [|reflexivity].
+  apply Z.ltb_lt in E. destruct (a <? 0) eqn:Ea.
+  - apply Z.ltb_lt in Ea. rewrite Z.shiftr_div_pow2 by lia.
+    assert (Habs : Z.abs a = - a) by lia.
+    assert (Hlt : - a < 2 ^ n).
+    { destruct (Z.log2_spec (- a) ltac:(lia)) as [_ H2]. rewrite Habs in E.
+      assert (2 ^ Z.succ (Z.log2 (- a)) <= 2 ^ n) by (apply Z.pow_le_mono_r; lia). lia. }
+    assert (Hp : 0 < 2 ^ n) by (apply Z.pow_pos_nonneg; lia).
+    apply (Z.div_unique a (2 ^ n) (-1) (a + 2 ^ n)); lia.
+  - apply Z.ltb_ge in Ea. rewrite Z.abs_eq in E by lia. symmetry. apply Z.shiftr_eq_0_iff.
+    destruct (Z.eq_dec a 0) as [->|Hne]; [left; reflexivity|]. right. split; lia.
+Qed.
